@@ -186,7 +186,7 @@ CLAIMED = {
         'values, weight, laminate and state); the tangent integrand kL + kG is symmetric at every state (transposed position = same value). '
         'V: pieces driven through Gauss-Legendre vs the running kernels; implementation arm: symmetry, fint(0)=0, kT(0)=k0, kT.dc vs the exact '
         '5-point derivative of the cubic fint, assemblies with connections. One defect repaired (assembly calc_fint raised). ASSEMBLY LEVEL (Spec/AssemblyJacobian.lean on the existing Model/Assembly.lean): assembly_tangent_is_jacobian - for any panels, connection list, state and direction, if each panel tangent is the derivative of its internal force on its own slice then placed tangents + finalized connection matrix is the derivative of placed forces + K_conn c (HasDerivAt), instantiated with the panel Gauss-sum theorems (assembly_tangent_is_jacobian_gauss); assembly_tangent_symm (no hypothesis), assembly_fint_zero, assembly_fint_linear_part. '
-        'SINGLE-PANEL GLUE: Panel.calc_kT and Panel.calc_fint have a hand model (Model/PanelGlue.lean: calcKT, calcFint) with calc_kT_dispatch, calc_fint_dispatch, calc_fint_rejects, calc_kT_fint_consistent (both calls hand their kernels the same c, laminate table, quadrature orders and constant pre-loads), calc_fint_zero_state and panel_tangent_is_jacobian_glue (kernel facts as hypotheses of exactly the form kT_is_derivative_gauss_sum_* proves); tied by the recorded-kernel-call correspondence of the C02 driver (op `glue fint`).',
+        'SINGLE-PANEL GLUE: Panel.calc_kT and Panel.calc_fint have a hand model (Model/PanelGlue.lean: calcKT, calcFint) with calc_kT_dispatch, calc_fint_dispatch, calc_fint_rejects, calc_kT_fint_consistent (both calls hand their kernels the same c, laminate table, quadrature orders and constant pre-loads), calc_fint_zero_state and panel_tangent_is_jacobian_glue and its instances _plate / _cpanel (kernel hypothesis discharged by kT_is_derivative_gauss_sum_* for kernels that are the Gauss sums of the regenerated integrands); tied by the recorded-kernel-call correspondence of the C02 driver (op `glue fint`).',
    note='As C02; Gauss loops / laminate-table switch / COO book-keeping checked as schema + numerically (V), not proved; exactness of the rule is C10; '
         'that the running loop accumulates exactly the modelled per-point terms is the V tie.',
    technique='Lean 4 proof (ring identities, HasDerivAt) over regenerated model + translation validation + exact finite-difference oracle', ref='4/C08'),
